@@ -153,7 +153,7 @@ BOXES = [
     {"kind": "general-dense", "value": [[3.1, 0.21, 0.32], [0.43, 4.1, 0.54], [0.65, 0.76, 5.1]], "numpy": False},
     {"kind": "general-dense-negative-entries", "value": [[3.12345, -0.2, 0.3], [0.4, 4.1, -0.5], [-0.6, 0.7, 5.55555]], "numpy": True},
 ]
-APIS = ["writeline", "writelines", "writelines-in-two-chunks", "writelines-then-writeline"]
+APIS = ["writeline", "writelines", "writelines-in-two-chunks", "writelines-then-writeline", "writeline-with-refused-records-in-between"]
 BOX_WHEN = ["before", "after"]
 
 
@@ -251,7 +251,7 @@ N_ROT = len(TITLES) * len(BOXES) * len(APIS) * len(BOX_WHEN)
 
 def rotate(j):
     nt, nb = len(TITLES), len(BOXES)
-    return j % nt, (j // nt) % nb, APIS[(j // (nt * nb)) % len(APIS)], BOX_WHEN[(j // (nt * nb * len(APIS))) % 2]
+    return j % nt, (j // nt) % nb, APIS[(j // (nt * nb)) % len(APIS)], BOX_WHEN[(j // nt + j // (nt * nb * len(APIS))) % 2]
 
 
 def text_encoding():
@@ -350,6 +350,20 @@ def write_session(path, case):
             f.writelines(args[:-1])
             stage = "writeline(last record)"
             f.writeline(args[-1])
+        elif case["api"] == "writeline-with-refused-records-in-between":
+            # after the first record the caller also offers records the writer refuses (wrong number of fields, a non-numeric coordinate),
+            # catches the error and goes on: "every list of atom records" is the list of the records the writer ACCEPTED
+            bad = [(1, "RES", "X", 1, 0.0, 0.0), (1, "RES", "X", 1, "a", 0.0, 0.0)]
+            for i, a in enumerate(args):
+                if i >= 1:
+                    try:
+                        f.writeline(list(bad[i % 2]))
+                    except Exception:      # noqa: the refusal
+                        pass
+                    else:
+                        raise Raised(f"writeline(malformed record {bad[i % 2]!r}) before record {i}", AssertionError("was accepted"))
+                stage = f"writeline(record {i})"
+                f.writeline(a)
         else:
             for i, a in enumerate(args):
                 stage = f"writeline(record {i})"
